@@ -85,6 +85,8 @@ def _case(draw):
     spec["M"] = {"d": d, "psi": [draw(gen.f(-1, 1)) for _ in range(nu * nu)], "sparse": draw(st.booleans())}
     spec["W"] = [[draw(gen.f(-2, 2)) for _ in range(k)] for _ in range(nu)]
     spec["alpha"] = draw(gen.f(0.05, 1.95))
+    # W as an integer-typed matrix of force directions (selection / incidence columns with entries in -2..2)
+    spec["W_int"] = draw(st.integers(0, 3)) == 0
     return spec
 
 
@@ -193,10 +195,14 @@ def check(spec):
     M = Q @ np.diag(Ms["d"]) @ Q.T
     M = 0.5 * (M + M.T)
     W = np.array(spec["W"], dtype=float).reshape(nu, -1)
+    W_arg = W
+    if spec.get("W_int"):
+        W_arg = np.round(W).astype(int)
+        W = W_arg.astype(float)
     k = W.shape[1]
     fullrank = k == 0 or np.linalg.matrix_rank(W) == k and np.linalg.svd(W, compute_uv=False)[-1] > 1e-3
     if fullrank:
-        got = np.asarray(estimate_prox_parameter(spec["alpha"], csc_array(W) if Ms["sparse"] else W,
+        got = np.asarray(estimate_prox_parameter(spec["alpha"], csc_array(W_arg) if Ms["sparse"] else W_arg,
                                                  csc_array(M) if Ms["sparse"] else M), dtype=float)
         site = "estimate_prox_parameter"
         expect("prox_parameter_shape", site, got.shape == (k,))
@@ -206,7 +212,7 @@ def check(spec):
                 ref = spec["alpha"] / np.diag(W.T @ np.linalg.solve(M, W))
                 rel = float(np.max(np.abs(got - ref) / ref))
                 expect("prox_parameter_matches_reference", site, rel <= 1e-8 * max(Ms["d"]) / min(Ms["d"]) ** 0 * 1.0 + 1e-6, rel)
-        res.label("prox_param:k=0" if k == 0 else "prox_param:k>0")
+        res.label("prox_param:k=0" if k == 0 else "prox_param:k>0", "prox_param:W_int" if spec.get("W_int") else "prox_param:W_float")
 
     res.nontrivial = outside and n >= 2
     res.label(f"dim={n}", "z>0" if zval > 0 else ("z=0" if zval == 0 else "z<0"))
